@@ -10,7 +10,9 @@
    strings for scripts / datums / redeemer data, arbitrary identity classes, arbitrary cost-model tables,
    arbitrary histories of builder operations. *)
 From CSL Require Import Base.Prelude Cbor.Head Cbor.Item ScriptData.LangViews ScriptData.ScriptData
-  ScriptData.ScriptDataSpec ScriptData.ScriptDataProofs ScriptData.SlicesProofs ScriptData.Blake2bProofs.
+  ScriptData.ScriptDataSpec ScriptData.ScriptDataProofs ScriptData.SlicesProofs ScriptData.Blake2bProofs
+  ScriptData.SubBuilders ScriptData.SubBuildersProofs.
+From CSL Require Pointers.Pointers.
 Local Open Scope N_scope.
 
 (* ---- the stand-alone helper -------------------------------------------------------------------------------- *)
@@ -300,6 +302,32 @@ Theorem C09_judge_accepts_model : forall (H : bytes -> bytes) (ops : list op) (c
 Proof. exact judge_builder_accepts_model. Qed.
 Print Assumptions C09_judge_accepts_model.
 
+(* ---- the languages in use COMPUTED from the sub-builders' entries (joint with the C10 model Pointers/Pointers.v) ---- *)
+
+(* what calc_script_data_hash reads from the entries of the seven sub-builders (get_used_plutus_lang_versions, with the
+   `if let Some(..)` guard of the two input builders) is the language set of the derived C09 state with the stale
+   registrations counted, for every C10 builder state with duplicate-free withdrawal keys (every reachable one) *)
+Theorem C09_entries_langs_model : forall (pay : N -> payload) (t : P.txb) (ncol : N) (extra : option (list pdata))
+    (h : option bytes) (a : option aux_data) (l : lang),
+  NoDup (map fst (P.t_wdrl t)) ->
+  mem_lang l (entries_langs pay t) = mem_lang l (used_langs_gen true (builder_of pay t ncol extra h a)).
+Proof. exact entries_langs_model. Qed.
+Print Assumptions C09_entries_langs_model.
+
+(* C09_same_bytes with the languages computed from the entries, not given *)
+Theorem C09_same_bytes_entries : forall (H : bytes -> bytes) (pay : N -> payload) (t : P.txb) (ncol : N)
+    (extra : option (list pdata)) (h : option bytes) (a : option aux_data) (cm : costmdls) (b1 : builder) (tx : ScriptData.tx),
+  let b0 := builder_of pay t ncol extra h a in
+  wf_builder b0 -> NoDup (map fst (P.t_wdrl t)) ->
+  known_stale_lang_gen true b0 = false ->
+  calc_script_data_hash H b0 cm = Ok b1 ->
+  (has_script_items b0 = true \/ h = None) ->
+  build_tx H b1 = Ok tx ->
+  let fs := ws_fields (tx_witness_set tx) in
+  tx_script_data_hash tx = ledger_script_integrity H (assoc_field 5 fs) (assoc_field 4 fs) (entries_langs pay t) cm.
+Proof. exact same_bytes_entries. Qed.
+Print Assumptions C09_same_bytes_entries.
+
 (* ---- non-vacuity ------------------------------------------------------------------------------------------- *)
 Definition ex_datum_a : pdata := mk_pdata 1 [24; 42].
 Definition ex_datum_b : pdata := mk_pdata 2 [159; 1; 2; 255].
@@ -373,3 +401,16 @@ Example C09_judge_example :
   | _ => False
   end.
 Proof. vm_compute. reflexivity. Qed.
+(* a C10 history: a V2 reference-script spend, a V1 spend re-added as a key input (stale), a Plutus mint; the entries'
+   language set holds V1 (stale) although only V2 and V3 witnesses are returned *)
+Definition ex_pay (rid : N) : payload :=
+  mk_payload (match rid with 1 => SrcRef V2 | 2 => SrcRef V1 | _ => SrcScript (mk_script V3 [7]) end) DatumNone (mk_pdata rid [rid]) 10 20.
+Definition ex_txb : P.txb :=
+  fst (P.run [P.OpIn (P.InPlutus [1] ([0], 0) 1); P.OpIn (P.InPlutus [2] ([0], 1) 2); P.OpIn (P.InKey ([0], 1));
+              P.OpMint (P.mkMintOp [9] (P.MPlutus false 3) 0 1%Z false)]).
+Example C09_entries_example :
+  map (fun l => mem_lang l (entries_langs ex_pay ex_txb)) [V1; V2; V3] = [true; true; true] /\
+  map (fun l => mem_lang l (langs_used (builder_of ex_pay ex_txb 1 None None None))) [V1; V2; V3] = [false; true; true] /\
+  known_stale_lang_gen true (builder_of ex_pay ex_txb 1 None None None) = true /\
+  NoDup (map fst (P.t_wdrl ex_txb)).
+Proof. repeat split; try reflexivity. constructor. Qed.
